@@ -8,8 +8,6 @@ theorem tie_cfg_proved : Proved cfg := by decide
 theorem tie_facts : facts = Facts.expected := by decide
 
 /-! the regenerated kernels are the functions the model (and every theorem of `Nv.Props.C08`) is about -/
-theorem tie_set64 (i : BitVec 8) (b : BitVec 64) : bit64_set i b = set64 b i := rfl
-theorem tie_unset64 (i : BitVec 8) (b : BitVec 64) : bit64_unset i b = unset64 b i := rfl
 theorem tie_setI32_sel (i : BitVec 32) : setI32_sel i = selI32 i := rfl
 theorem tie_unsetI32_sel (i : BitVec 32) : unsetI32_sel i = selI32 i := rfl
 theorem tie_setI16_sel (i : BitVec 16) : setI16_sel i = selI16 i := rfl
@@ -17,12 +15,44 @@ theorem tie_unsetI16_sel (i : BitVec 16) : unsetI16_sel i = selI16 i := rfl
 
 /-! the property theorems about set/unset, stated directly on the regenerated kernels -/
 
-/-- regenerated `Bit64.Set`: bit `i` joins iff `i ≤ 63`, nothing else changes -/
+/-- regenerated `Bit64.Set` / `Unset`: bit `i` changes iff `i ≤ 63`, nothing else — proved on the kernel itself
+    (first by definitional equality with the model, otherwise semantically, e.g. for the guard written `i < 64`) -/
 theorem tie_set64_spec (i : BitVec 8) (b : BitVec 64) (j : Nat) :
-    (bit64_set i b).getLsbD j = (b.getLsbD j || (decide (i.toNat ≤ 63) && decide (i.toNat = j))) := set64_spec b i j
+    (bit64_set i b).getLsbD j = (b.getLsbD j || (decide (i.toNat ≤ 63) && decide (i.toNat = j))) := by
+  first
+  | exact set64_spec b i j
+  | (have h63 : (63#8 : BitVec 8).toNat = 63 := rfl
+     have h64 : (64#8 : BitVec 8).toNat = 64 := rfl
+     simp only [bit64_set, BitVec.ule_eq_decide, BitVec.ult_eq_decide, h63, h64]
+     by_cases h : i.toNat ≤ 63
+     · have h' : i.toNat < 64 := by omega
+       simp only [h, h', decide_true, if_true, Bool.true_and]
+       exact getLsbD_setbit b i.toNat j h'
+     · have h' : ¬ i.toNat < 64 := by omega
+       simp [h, h'])
 
 theorem tie_unset64_spec (i : BitVec 8) (b : BitVec 64) (j : Nat) :
-    (bit64_unset i b).getLsbD j = (b.getLsbD j && !(decide (i.toNat ≤ 63) && decide (i.toNat = j))) := unset64_spec b i j
+    (bit64_unset i b).getLsbD j = (b.getLsbD j && !(decide (i.toNat ≤ 63) && decide (i.toNat = j))) := by
+  first
+  | exact unset64_spec b i j
+  | (have h63 : (63#8 : BitVec 8).toNat = 63 := rfl
+     have h64 : (64#8 : BitVec 8).toNat = 64 := rfl
+     simp only [bit64_unset, BitVec.ule_eq_decide, BitVec.ult_eq_decide, h63, h64]
+     by_cases h : i.toNat ≤ 63
+     · have h' : i.toNat < 64 := by omega
+       simp only [h, h', decide_true, if_true, Bool.true_and]
+       exact getLsbD_clear b i.toNat j
+     · have h' : ¬ i.toNat < 64 := by omega
+       simp [h, h'])
+
+theorem tie_set64 (i : BitVec 8) (b : BitVec 64) : bit64_set i b = set64 b i := by
+  first
+  | rfl
+  | (apply BitVec.eq_of_getLsbD_eq; intro j _; rw [tie_set64_spec, set64_spec])
+theorem tie_unset64 (i : BitVec 8) (b : BitVec 64) : bit64_unset i b = unset64 b i := by
+  first
+  | rfl
+  | (apply BitVec.eq_of_getLsbD_eq; intro j _; rw [tie_unset64_spec, unset64_spec])
 
 /-- regenerated index arithmetic of `SetI32`: in range ⇒ (word i/64, bit i%64); otherwise the guard fails or the
     byte handed to `Bit64.Set` exceeds 63 -/
